@@ -586,6 +586,14 @@ theorem sameShape_nbhdMask (s : State) (k : Nat) (geom : Option Bool) (torus : B
       · exact SameShape.refl s
       · exact ⟨rfl, rfl, rfl, rfl, rfl, rfl, rfl, rfl, rfl⟩
 
+theorem sameShape_gridSet (s : State) (n : String) : SameShape s (gridSet s n).1 := by
+  unfold gridSet
+  split
+  · exact SameShape.refl s
+  · split
+    · exact SameShape.refl s
+    · exact ⟨rfl, rfl, rfl, rfl, rfl, rfl, rfl, rfl, rfl⟩
+
 theorem WF_step {s : State} (h : WF s) (op : Op) : WF (step s op).1 := by
   cases op with
   | create n dt d => exact WF_create h n dt (d.resolve dt)
@@ -623,6 +631,7 @@ theorem WF_step {s : State} (h : WF s) (op : Op) : WF (step s op).1 := by
   | remove a => exact h.of_sameShape (sameShape_remove ..)
   | empties => exact h
   | nbhdMask k geom torus c ic r => exact h.of_sameShape (sameShape_nbhdMask ..)
+  | gridSet n => exact h.of_sameShape (sameShape_gridSet ..)
   | select ms oe conds exts save =>
     simp only [step]
     split
